@@ -55,6 +55,14 @@ ShadeOk(b, c, s, mmu, div, tol, upm) ==
 WinOk(v) == Chk("WindowsKeepSizeOffsetAndSetback",
                 AbsI(v.got.x - v.src.x) <= 1 /\ AbsI(v.got.y - v.src.y) <= 1 /\ AbsI(v.got.w - v.src.w) <= 1 /\ AbsI(v.got.h - v.src.h) <= 1
                 /\ AbsI(v.got.sb - v.src.sb) <= 1 /\ v.got.wall = v.src.wall)
+\* shading devices of the windows of generated buildings (figures in mm, building in units of mmu mm)
+DevOk(b, d, mmu) ==
+  LET win == d.win  n == d.edge IN
+  CASE d.kind = "overhang" ->
+         Chk("OverhangBecomesAShadeAtItsPlace", d.found /\ SameCorners(d.corners, OverhangCorners(b, b.sp, n, win, [a |-> d.a, b |-> d.b, w |-> d.w, d |-> d.d, ang |-> A3(d.ang)], mmu), 1, 1, 10))
+    [] d.kind = "lfin" -> Chk("SideFinBecomesAShadeAtItsPlace", d.found /\ SameCorners(d.corners, FinCorners(b, b.sp, n, win, [a |-> d.a, b |-> d.b, h |-> d.h, d |-> d.d], FALSE, mmu), 1, 1, 10))
+    [] d.kind = "rfin" -> Chk("SideFinBecomesAShadeAtItsPlace", d.found /\ SameCorners(d.corners, FinCorners(b, b.sp, n, win, [a |-> d.a, b |-> d.b, h |-> d.h, d |-> d.d], TRUE, mmu), 1, 1, 10))
+    [] OTHER -> Chk("KnownElementKind", FALSE)
 Elements(mmu, div, tol, upm) ==
   LET b == BuildingOf(Ev.c) IN
   /\ Chk("Converts", Ev.ok)
@@ -63,6 +71,7 @@ Elements(mmu, div, tol, upm) ==
        /\ \A i \in DOMAIN Ev.walls : WallOk(b, Ev.c, Ev.walls[i], mmu, div, tol, upm)
        /\ \A i \in DOMAIN Ev.shades : ShadeOk(b, Ev.c, Ev.shades[i], mmu, div, tol, upm)
        /\ \A i \in DOMAIN Ev.wins : WinOk(Ev.wins[i])
+       /\ ("devs" \in DOMAIN Ev) => \A i \in DOMAIN Ev.devs : DevOk(b, Ev.devs[i], mmu)
 \* generated buildings: lengths in dm (1 unit = 100 mm, 10 units per metre), tolerance 1 cm
 TGeom == IsEvent("Geom") /\ Elements(100, 1, 10, 10)
 \* shipped projects: lengths in mm
